@@ -9,6 +9,7 @@ mod hdr;
 mod lang;
 mod langgen;
 mod langdoc;
+mod langedit;
 mod meta;
 mod qml;
 mod translate;
